@@ -98,7 +98,7 @@ def native_replay(inst, q, workdir, inputs=None, run_timeout=120):
     h = inst.h
     func = h.get("func", inst.hname)
     inputs = inputs or find_inputs(q)
-    if "--big-endian" in inst.flags:
+    if "b" in inst.cfg:
         return {"status": "not-replayable", "detail": "counterexample of CBMC's big-endian memory model: cannot be re-executed on this little-endian host"}
     if inputs is None:
         return {"status": "not-replayable", "detail": "no symbolic input assignment in the trace"}
